@@ -25,7 +25,10 @@ EXPLANATION = (
     "an initialisation function (AttributeError class). C16.c: divisions / logarithms that are pure functions of crop "
     "parameters evaluated over the 37 effective crops. C16.d: first/last-element access (x[0], x[-1], .iloc[0]) on values "
     "whose constructor can yield an empty sequence (argwhere, boolean mask, query, range, slice, loop-appended list) "
-    "must be guarded by an emptiness test or covered by a named input assumption. NOT decided: numeric assert "
+    "must be guarded by an emptiness test or covered by a named input assumption. C16.e (sibling agreement): every "
+    "expression that measures the time since the start of yield formation has the normal form dap - delayed_cds - "
+    "HIstartCD - 1 (over canonical state / crop atoms), so that the HIt > 0 guards of the callers protect the divisions "
+    "by that quantity in the callees. NOT decided: numeric assert "
     "failures, non-finite results from run-time values, pandas-internal errors.")
 
 L = frozenset
@@ -387,5 +390,7 @@ def rule_a(chk, prog):
 
 
 def run(chk, prog, tier):
-    chk.parallel(prog, [rule_a, attribute_definedness, lambda c, p: table_divisors(c, p, "C16.c"), first_element_sites])
+    from ._siblings import yield_clock_agreement
+    chk.parallel(prog, [rule_a, attribute_definedness, lambda c, p: table_divisors(c, p, "C16.c"), first_element_sites,
+                        lambda c, p: yield_clock_agreement(c, p, "C16.e")])
     chk.exhaustive = True
